@@ -8,10 +8,16 @@ TLC on the definitions).
 Binding: every state visited by TLC is exported (operands + defined result)
 and evaluated on the real code three ways: directly through the function
 returned by build_operator_operand_fixup, with the operands in cells
-(=A1 op B1) and with the operands as literals in the formula; the result must
-be the defined value, type-exact.  A result marked <<"U", kind>> by the spec
-(outside the exactly-modelled fragment) is only checked for totality and
-counted.
+(=A1 op B1) and with the operands as literals in the formula (in their plain
+spelling and in the other spellings Excel reads as the same value: numerals
+with leading zeros, logicals in lower case); the result must be the defined
+value, type-exact.  A result marked <<"U", kind>> by the spec (outside the
+exactly-modelled fragment) is only checked for totality and counted.
+The pool holds text spelled like an error value ("#REF!", "#N/A", "#EMPTY!"):
+text to Excel, the error value to pycel (one representation).  The spec
+exports, next to the defined result, the result under that reading
+(Operators!DevResult); a discrepancy that equals it is attributed to the known
+finding C10_r3_2, any other one is a violation.
 """
 import json
 import math
@@ -23,6 +29,10 @@ from harness import tlc, xl
 from harness.evidence import Verdict
 
 PID = 'C10'
+# proposed known finding: pycel represents an error value by the text of its
+# code (and the empty operand by the text #EMPTY!), so a text operand spelled
+# like that is taken for the error value (for blank)
+FINDING_ERROR_TEXT = 'C10_r3_2'
 OPNAME = {'+': 'Add', '-': 'Sub', '*': 'Mult', '/': 'Div', '^': 'Pow',
           '&': 'BitAnd', '=': 'Eq', '<>': 'NotEq', '<': 'Lt', '<=': 'LtE',
           '>': 'Gt', '>=': 'GtE'}
@@ -91,8 +101,10 @@ def cell_content(val):
     return py_variants(val)[0]
 
 
-def literal(val):
-    """spelling of the value as a literal inside a formula (None: has none)"""
+def literal(val, alt=False):
+    """spelling of the value as a literal inside a formula (None: has none).
+    alt: the other spellings Excel reads as the same value: a numeral with
+    leading zeros (03.0, 00.5, -01), a logical in lower case"""
     t = val[0]
     if t == 'Z':
         return None
@@ -101,9 +113,12 @@ def literal(val):
         s = dec_str(fr)
         if fr.denominator == 1 and fr.numerator % 3 == 0 and fr.numerator:
             s += '.0'
+        if alt:
+            s = s.replace('-', '-0') if s.startswith('-') else '0' + s
         return s
     if t == 'B':
-        return 'TRUE' if val[1] else 'FALSE'
+        s = 'TRUE' if val[1] else 'FALSE'
+        return s.lower() if alt else s
     if t == 'S':
         return '"' + text_of(val).replace('"', '""') + '"'
     if t == 'E':
@@ -310,11 +325,20 @@ class Binder:
         if why:
             opnd = show(vec['a']) if vec['op'] in ('u-', '%') else \
                 f"{show(vec['a'])} {vec['op']} {show(vec['b'])}"
-            v.violation(
-                f"[{mode}] {vec['op']} on {opnd}: defined {show(want)}; {why}"
-                + (f" ({extra['formula']})" if 'formula' in extra else ''),
-                dict(mode=mode, op=vec['op'], a=vec['a'], b=vec['b'], want=want,
-                     got=brief(got, 200), **extra))
+            desc = (f"[{mode}] {vec['op']} on {opnd}: defined {show(want)}; {why}"
+                    + (f" ({extra['formula']})" if 'formula' in extra else ''))
+            case = dict(mode=mode, op=vec['op'], a=vec['a'], b=vec['b'], want=want,
+                        got=brief(got, 200), **extra)
+            # the known deviation and nothing else: an operand is a text
+            # spelled like an error value and the result is exactly what the
+            # operator is defined to give on that error value
+            dev = vec.get('dev') or None
+            if dev and not mismatch(got, dev):
+                case['deviant'] = dev
+                v.known_finding(FINDING_ERROR_TEXT, desc + f' (= {show(dev)}, the text '
+                                'read as an error value)', case)
+            else:
+                v.violation(desc, case)
 
     def pairs(self, vectors, formula_share=1.0):
         v = self.v
@@ -361,6 +385,12 @@ class Binder:
                 f = formula_for(vec['op'], la, lb)
                 cells[f'D{r}'] = f
                 plan.append((f'D{r}', 'literal', vec, dict(formula=f)))
+                # the same operands in their other spellings (007, true)
+                f2 = formula_for(vec['op'], literal(vec['a'], alt=True),
+                                 'x' if unary else literal(vec['b'], alt=True))
+                if f2 != f:
+                    cells[f'E{r}'] = f2
+                    plan.append((f'E{r}', 'literal', vec, dict(formula=f2, variant='alt')))
             got = evaluate_cells(cells, [p[0] for p in plan])
             for addr, mode, vec, extra in plan:
                 self.judge(mode, vec, got[addr], extra)
@@ -440,11 +470,11 @@ class Binder:
                 nested += 1
                 why = mismatch(got, want)
                 if why:
-                    v.violation(
+                    self.report3(
                         f"[direct] ({show(vec['a'])} {op} {show(vec['b'])}) {op} "
                         f"{show(vec['c'])}: defined {show(want)}; {why}",
                         dict(mode='nested', op=op, a=vec['a'], b=vec['b'], c=vec['c'],
-                             want=want, got=brief(got, 200)))
+                             want=want, got=brief(got, 200)), vec, q, got)
             if all(vec[k][0] in 'NSB' for k in 'abc'):
                 ab, bc, ac = (direct(fix, '<=', x, y) for x, y in ((a, b), (b, c), (a, c)))
                 chains += 1
@@ -475,12 +505,25 @@ class Binder:
                         json.dumps(vec['b']), json.dumps(vec['c'])))
                 why = mismatch(got[addr], vec['nested'][q])
                 if why:
-                    v.violation(
+                    self.report3(
                         f"[cells] {f} with {show(vec['a'])}, {show(vec['b'])}, "
                         f"{show(vec['c'])}: defined {show(vec['nested'][q])}; {why}",
                         dict(mode='nested-cells', formula=f, a=vec['a'], b=vec['b'],
-                             c=vec['c'], want=vec['nested'][q], got=brief(got[addr], 200)))
+                             c=vec['c'], want=vec['nested'][q], got=brief(got[addr], 200)),
+                        vec, q, got[addr])
         return nested, chains, len(sample)
+
+    def report3(self, desc, case, vec, q, got):
+        """a discrepancy of a nested comparison: the known deviation when an
+        operand is a text spelled like an error value and the result is the
+        defined result on that error value, a violation otherwise"""
+        dev = vec.get('dev') or None
+        if dev and not mismatch(got, dev[q]):
+            case['deviant'] = dev[q]
+            self.v.known_finding(FINDING_ERROR_TEXT, desc + f' (= {show(dev[q])}, the text '
+                                 'read as an error value)', case)
+        else:
+            self.v.violation(desc, case)
 
 
 # ---------------------------------------------------------------------------
@@ -626,8 +669,10 @@ def run(tier, seed):
         evaluations_by_mode=binder.by_mode,
         rule='one case = (mode, operator, a, b[, c], concrete types); the three '
              'modes are: the fixup function itself, =A1 op B1 with the operands '
-             'in cells, =a op b with literal operands; unmodelled (U) results '
+             'in cells, =a op b with literal operands (plain, and with zero-padded '
+             'numerals / lower-case logicals); unmodelled (U) results '
              'are checked for totality only',
+        known_finding_cases={k: len(c) for k, c in v.known.items()},
         not_judged=['0^0 (Excel #NUM!, pycel 1)',
                     'order of two unequal texts unless both consist of letters, '
                     'digits, space and full stop (collation)',
